@@ -257,6 +257,13 @@ def run(prop: str, case: Dict[str, Any]) -> Dict[str, Any]:
             if len(sweep) > 1:
                 for v in ctx.violations:
                     v["msg"] = f"[fault plan {si}: {faults}] " + v["msg"]
+                # the single-plan case that failed: this (not the whole sweep) is what gets minimised and replayed
+                red = {k: v for k, v in case.items() if k not in ("fault_sweep", "_venvs", "_phase")}
+                red["faults"] = faults
+                red["sched_seed"] = kernel.derive(case["sched_seed"], si) if si else case["sched_seed"]
+                res = ctx.result()
+                res["reduced_case"] = red
+                return res
             break
     return ctx.result()
 
